@@ -19,7 +19,7 @@ def bitsNat : Bits → Nat
 
 /-- read `k` bits from the front, failing when fewer are present -/
 def readN (k : Nat) (bs : Bits) : Option (Nat × Bits) :=
-  if bs.length < k then none else some (bitsNat (bs.take k), bs.drop k)
+  if (bs.take k).length < k then none else some (bitsNat (bs.take k), bs.drop k)
 
 /-- two's complement of `i` on `n` bits -/
 def toTwos (n : Nat) (i : Int) : Nat := (i % (2^n : Int)).toNat
@@ -39,6 +39,15 @@ def unpack : List Nat → Bits
   | b :: bs => natBits 8 b ++ unpack bs
 
 /-! ## lemmas -/
+
+theorem readN_eq (k : Nat) (bs : Bits) :
+    readN k bs = if bs.length < k then none else some (bitsNat (bs.take k), bs.drop k) := by
+  unfold readN
+  have : (bs.take k).length < k ↔ bs.length < k := by
+    rw [List.length_take]; omega
+  by_cases h : bs.length < k
+  · rw [if_pos (this.mpr h), if_pos h]
+  · rw [if_neg (fun h' => h (this.mp h')), if_neg h]
 
 @[simp] theorem natBits_length (k x : Nat) : (natBits k x).length = k := by
   induction k generalizing x with
@@ -100,13 +109,13 @@ theorem natBits_full (l : Bits) : natBits l.length (bitsNat l) = l := by
 
 theorem readN_natBits (k x : Nat) (rest : Bits) (h : x < 2^k) :
     readN k (natBits k x ++ rest) = some (x, rest) := by
-  unfold readN
+  rw [readN_eq]
   have hl := natBits_length k x
   simp [hl, bitsNat_natBits k x h]
 
 theorem readN_some {k : Nat} {bs : Bits} {w : Nat} {r : Bits} (h : readN k bs = some (w, r)) :
     bs = natBits k w ++ r ∧ w < 2^k := by
-  unfold readN at h
+  rw [readN_eq] at h
   split at h
   · cases h
   · rename_i hlen
@@ -123,7 +132,7 @@ theorem readN_some {k : Nat} {bs : Bits} {w : Nat} {r : Bits} (h : readN k bs = 
       rwa [hlen'] at this
 
 theorem readN_none {k : Nat} {bs : Bits} : readN k bs = none ↔ bs.length < k := by
-  unfold readN
+  rw [readN_eq]
   split <;> simp_all
 
 /-! two's complement -/
